@@ -634,6 +634,21 @@ pub fn run(cfg: &Cfg, rep: &mut Rep) {
                 }
                 let sign = *r.pick(&[-128i8, -1, 0, 1, 127, -2, 2]);
                 check_compose(rep, sign, f);
+                if r.chance(1, 4) {
+                    // well-formed calendar-like fields (h < 24, min < 60 ...) whose total sits next to a 64-bit threshold of the
+                    // nanosecond count: the day count alone is below it, the time of day carries it across
+                    let t = *r.pick(&[1i128 << 63, 1 << 64, 1 << 62, 1 << 53, i64::MAX as i128, NPC, 2 * NPC, (1i128 << 63) + NPC])
+                        + match r.below(3) {
+                            0 => r.range_i64(-3, 3) as i128,
+                            1 => r.range_i64(-2_000_000_000, 2_000_000_000) as i128,
+                            _ => r.range_i128(-NS_D, NS_D),
+                        };
+                    let t = t.max(0) as u128;
+                    let (nd, nh, nm, nsec) = (NS_D as u128, NS_H as u128, NS_MIN as u128, NS_S as u128);
+                    let g = [(t / nd) as u64, (t % nd / nh) as u64, (t % nh / nm) as u64, (t % nm / nsec) as u64, (t % nsec / 1_000_000) as u64, (t % 1_000_000 / 1000) as u64, (t % 1000) as u64];
+                    rep.class("compose/total-next-to-a-64-bit-threshold");
+                    check_compose(rep, sign, g);
+                }
                 if r.chance(1, 8) {
                     // fields that sum to exactly k centuries (the negation of a whole century has to carry), split at random
                     let k = 1 + r.below(40);
